@@ -177,6 +177,7 @@ type gffOpts struct {
 	WithFasta      bool `json:"with_fasta"`      // emit ##FASTA section
 	GeneRows       bool `json:"gene_rows"`       // emit extra non-CDS rows (gene), which must be ignored
 	SortRows       bool `json:"sort_rows"`       // rows in coordinate order: rows sharing an ID are no longer adjacent
+	ParentAttr     bool `json:"parent_attr"`     // NCBI style: CDS rows carry Parent=gene-k (two neighbouring features share one gene) and further attributes
 }
 
 func (a Anno) renderGFF(o gffOpts) string {
@@ -203,7 +204,13 @@ func (a Anno) renderGFF(o gffOpts) string {
 			strand = "-"
 		}
 		if o.GeneRows {
-			rows = append(rows, gffRow{f.minPos(), len(rows), fmt.Sprintf("%s\tsynthetic\tgene\t%d\t%d\t.\t%s\t.\tID=gene%d\n", a.RefName, f.minPos(), f.maxPos(), strand, fi+1)})
+			gid := fmt.Sprintf("gene%d", fi+1)
+			if o.ParentAttr {
+				gid = fmt.Sprintf("gene-%d", fi/2+1)
+			}
+			if !o.ParentAttr || fi%2 == 0 {
+				rows = append(rows, gffRow{f.minPos(), len(rows), fmt.Sprintf("%s\tsynthetic\tgene\t%d\t%d\t.\t%s\t.\tID=%s\n", a.RefName, f.minPos(), f.maxPos(), strand, gid)})
+			}
 		}
 		// phases per row, in translation order
 		order := make([]int, len(f.Segs))
@@ -230,8 +237,15 @@ func (a Anno) renderGFF(o gffOpts) string {
 		}
 		for si, s := range f.Segs {
 			attrs := "ID=" + id
+			if o.ParentAttr {
+				// as in NCBI's files, where e.g. the two ORF1 polyproteins are distinct CDS features under one gene
+				attrs += fmt.Sprintf(";Parent=gene-%d;Dbxref=GeneID:%d", fi/2+1, 43740560+fi)
+			}
 			if f.Name != "" {
 				attrs += ";Name=" + f.Name
+			}
+			if o.ParentAttr {
+				attrs += ";gbkey=CDS"
 			}
 			rows = append(rows, gffRow{s.Start, len(rows), fmt.Sprintf("%s\tsynthetic\t%s\t%d\t%d\t.\t%s\t%d\t%s\n", a.RefName, typ, s.Start, s.End, strand, phase[si], attrs)})
 		}
